@@ -251,6 +251,7 @@ func (t *Task) Tag(tagName string) string {
 // Execute executes the task (the shell command or go function in CustomExecute)
 func (t *Task) Execute() {
 	defer close(t.Done)
+	verifTask("task.begin", t, 0)
 
 	// Do some sanity checks
 	if t.tempDirsExist() {
@@ -258,16 +259,19 @@ func (t *Task) Execute() {
 	}
 
 	if t.anyOutputsExist() {
+		verifTask("task.skip_existing", t, 0)
 		t.Done <- 1
 		return
 	}
 
 	// Execute task
 	t.workflow.IncConcurrentTasks(t.cores) // Will block if max concurrent tasks is reached
+	verifTask("task.slots_acquired", t, t.cores)
 	err := t.createDirs()                  // Create output directories needed for any outputs
 	if err != nil {
 		t.Failf("Could not create directories: %v", err)
 	}
+	verifTask("task.dirs_created", t, 0)
 	startTime := time.Now()
 	if t.CustomExecute != nil {
 		outputsStr := ""
@@ -275,24 +279,34 @@ func (t *Task) Execute() {
 			outputsStr += " " + oipName + ": " + oip.Path()
 		}
 		t.Auditf("Executing: Custom Go function with outputs: %s", outputsStr)
+		verifTask("task.cmd_start", t, t.cores)
 		t.CustomExecute(t)
+		verifTask("task.cmd_done", t, t.cores)
 		t.Auditf("Finished: Custom Go function with outputs: %s", outputsStr)
 	} else {
 		t.Auditf("Executing: %s", t.Command)
+		verifTask("task.cmd_start", t, t.cores)
 		t.executeCommand(t.Command)
+		verifTask("task.cmd_done", t, t.cores)
 		t.Auditf("Finished: %s", t.Command)
 	}
 	finishTime := time.Now()
 	t.writeAuditLogs(startTime, finishTime)
+	verifTask("task.audit_written", t, 0)
 
 	t.ensureAllOutputsExist()
+	verifTask("task.outputs_checked", t, 0)
 	finErr := t.finalizePaths()
 	if finErr != nil {
 		t.Fail(finErr)
 	}
 
+	verifTask("task.finalized", t, 0)
+	verifTask("task.slots_releasing", t, t.cores)
 	t.workflow.DecConcurrentTasks(t.cores)
 
+	verifTask("task.slots_released", t, t.cores)
+	verifTask("task.done", t, 0)
 	t.Done <- 1
 }
 
@@ -385,6 +399,7 @@ func (t *Task) writeAuditLogs(startTime time.Time, finishTime time.Time) {
 			oip.AddTags(iip.Tags())
 		}
 		oip.WriteAuditLogToFile()
+		verifTask("audit.written", t, 0)
 	}
 }
 
@@ -435,6 +450,7 @@ func FinalizePaths(tempExecDir string, ips ...*FileIP) error {
 			if renameErr != nil {
 				return errors.New(fmt.Sprintf("Could not rename out-IP file %s to %s: %s", tempPath, finPath, renameErr))
 			}
+			verifPoint("fin.renamed", tempExecDir, 0)
 		}
 	}
 	// For remaining paths in temporary execution dir, just move out of it
@@ -455,6 +471,7 @@ func FinalizePaths(tempExecDir string, ips ...*FileIP) error {
 			if renameErr != nil {
 				return errors.New(fmt.Sprintf("Could not rename remaining file %s to %s: %s", tempPath, finPath, renameErr))
 			}
+			verifPoint("fin.extra_moved", tempExecDir, 0)
 		}
 		return err
 	})
@@ -463,10 +480,12 @@ func FinalizePaths(tempExecDir string, ips ...*FileIP) error {
 	}
 	// Remove temporary execution dir (but not for absolute paths, or current dir)
 	if tempExecDir != "" && tempExecDir != "." && tempExecDir[0] != '/' {
+		verifPoint("fin.before_rmtemp", tempExecDir, 0)
 		remErr := os.RemoveAll(tempExecDir)
 		if remErr != nil {
 			return errors.New(fmt.Sprintf("Could not remove temp dir: %s: %s", tempExecDir, remErr))
 		}
+		verifPoint("fin.after_rmtemp", tempExecDir, 0)
 	}
 	return nil
 }
